@@ -317,3 +317,43 @@ impl VSubscriptionTrie {
 pub fn inproc_socket_types_compatible(a: crate::socket::types::SocketType, b: crate::socket::types::SocketType) -> bool {
   crate::transport::inproc::handshake::validate_socket_compatibility(a, b).is_ok()
 }
+
+// --- schedule points (native replay of solver-found interleavings) -------------------------------
+
+type SchedHook = Box<dyn Fn(&str) + Send + Sync>;
+static SCHED_HOOK: parking_lot::RwLock<Option<SchedHook>> = parking_lot::RwLock::new(None);
+
+/// Install (or clear) a callback invoked at every named schedule point.
+pub fn set_sched_hook(hook: Option<SchedHook>) {
+  *SCHED_HOOK.write() = hook;
+}
+
+/// No-op unless a replay harness installed a hook.
+pub fn sched_point(name: &str) {
+  if let Some(h) = SCHED_HOOK.read().as_ref() {
+    h(name);
+  }
+}
+
+// --- WaitGroup ------------------------------------------------------------------------------------
+
+#[derive(Clone)]
+pub struct VWaitGroup(crate::runtime::waitgroup::WaitGroup);
+
+impl VWaitGroup {
+  pub fn new() -> Self {
+    Self(crate::runtime::waitgroup::WaitGroup::new())
+  }
+  pub fn add(&self, delta: usize) {
+    self.0.add(delta)
+  }
+  pub fn done(&self) {
+    self.0.done()
+  }
+  pub async fn wait(&self) {
+    self.0.wait().await
+  }
+  pub fn get_count(&self) -> usize {
+    self.0.get_count()
+  }
+}
